@@ -333,6 +333,7 @@ def rule_split_and_placement(rep, fx):
     builtsent.run_rule(rep, fx, 'R05.13')
     builtsent.run_wire(rep, fx, 'R05.17')
     rule_bytes_slice(rep, fx, 'R05.14')
+    rule_partially_received_contract(rep, fx, 'R05.18')
     # ---------------------------------------------------------------- R05.7 counts
     nfb = fx.find('rtps::writer::Writer::num_frags_and_frag_size')
     tnb = fx.find('messages::submessages::data_frag::DataFrag::total_number_of_fragments')
@@ -669,3 +670,44 @@ def rule_bytes_slice(rep, fx, rid):
                         bad.append('with to\' > H the value prefix is not copied on every path')
     rep.check(not bad, rid, 'bytes_slice/window-of-header-and-value', 'both forms return (header ++ value)[from\' .. to\']',
               'SerializedPayload::bytes_slice does not return the requested window of header ++ value (%s): the fragments the writer cuts do not add up to the sample' % '; '.join(bad[:3]), b.where())
+
+
+def rule_partially_received_contract(rep, fx, rid='R05.18'):
+    """What "partially received" means is a contract between the assembler and the Reader (added after seeds C01g / C03g, which made it "a buffer exists and a fragment bit is set":
+    a sample whose only DATAFRAG so far was refused then counts as complete-but-unusable and is skipped, i.e. acknowledged and never delivered)."""
+    rep.rule(rid, 'partially received = a buffer exists: Reader::handle_datafrag_msg reads "no sample released and not partially received" as "every fragment arrived, the sample is '
+                  'unusable" and skips it for good, so FragmentAssembler::is_partially_received(sn) has to answer with the presence of an assembly buffer for sn and nothing narrower '
+                  '(contains_key / get(..).is_some() on assembly_buffers with its argument, no further conjunct), and Reader::is_frag_partially_received hands that answer through')
+    b = fx.find('rtps::fragment_assembler::FragmentAssembler::is_partially_received')
+    rep.analysed(b)
+    og = Origins(b, summaries=False)
+    ok = True
+    for r in b.return_blocks():
+        v = og.of_local(0, r, 'term')
+        pres = v[0] == 'call' and v[1].rsplit('::', 1)[-1] == 'contains_key' and term_has(v[2][0], lambda x: x[0] == 'field' and x[1] == 'assembly_buffers') and \
+            term_has(v[2][1], lambda x: x == ('param', 2))
+        pres2 = v[0] == 'call' and v[1].rsplit('::', 1)[-1] == 'is_some' and v[2] and v[2][0][0] == 'call' and v[2][0][1].rsplit('::', 1)[-1] == 'get' and \
+            term_has(v[2][0], lambda x: x[0] == 'field' and x[1] == 'assembly_buffers') and term_has(v[2][0], lambda x: x == ('param', 2))
+        ok = ok and (pres or pres2)
+    n_sw = sum(1 for bb in b.live_blocks() if b.blocks[bb]['term']['t'] == 'switch')
+    rep.check(ok and n_sw == 0, rid, 'is_partially_received/buffer-present', 'answer = assembly_buffers has a buffer for sn',
+              'FragmentAssembler::is_partially_received answers something narrower (or other) than "an assembly buffer exists for this sequence number": a sample whose buffer exists '
+              'but does not satisfy the extra condition (e.g. its only DATAFRAG so far was refused) is taken by handle_datafrag_msg for complete-but-unusable and skipped: it is '
+              'acknowledged, never requested again and never delivered', b.where())
+    r = fx.find('rtps::reader::Reader::is_frag_partially_received')
+    rep.analysed(r)
+    ogr = Origins(r, summaries=False)
+    bodies = [r] + list(fx.closures_of(r))
+    calls = [(k, bb, t) for k in bodies for bb, t in k.calls() if call_matches(t, 'FragmentAssembler::is_partially_received')]
+    okr = len(calls) == 1
+    neg = ('not', 'is_none', 'is_none_or')
+    for k in bodies:
+        okk = Origins(k, summaries=False)
+        for rb in k.return_blocks():
+            v = okk.of_local(0, rb, 'term')
+            okr = okr and not term_has(v, lambda x: x[0] == 'un' or (x[0] == 'call' and x[1].rsplit('::', 1)[-1] in neg))
+    for rb in r.return_blocks():
+        v = ogr.of_local(0, rb, 'term')
+        okr = okr and term_has(v, lambda x: x[0] == 'field' and x[1] == 'fragment_assemblers') and term_has(v, lambda x: x == ('param', 2))
+    rep.check(okr, rid, 'Reader::is_frag_partially_received/hands-through', 'asks the assembler of that writer about that sequence number, not negated',
+              'Reader::is_frag_partially_received does not hand through what the assembler of the writer says about the sequence number it was asked for', r.where())
